@@ -45,7 +45,7 @@ class Scratch:
 
 
 def run_kani(scratch, package, harnesses, rustflags='--cfg force_bits="64"', timeout=1800, jobs=8,
-             extra_args=(), harness_timeout=None, features=None, no_default_features=False):
+             extra_args=(), harness_timeout=None, features=None, no_default_features=False, cbmc_args=()):
     """Run the named harnesses (exact names) of one package. Returns dict name -> result."""
     cmd = ['cargo', 'kani', '-p', package, '--exact', '--output-format', 'terse', '-j', str(jobs),
            '-Z', 'function-contracts', '-Z', 'stubbing', '-Z', 'unstable-options']
@@ -58,6 +58,8 @@ def run_kani(scratch, package, harnesses, rustflags='--cfg force_bits="64"', tim
     cmd += list(extra_args)
     for h in harnesses:
         cmd += ['--harness', h]
+    if cbmc_args:
+        cmd += ['--cbmc-args'] + list(cbmc_args)      # must be last on the command line
     env = dict(os.environ)
     env['CARGO_NET_OFFLINE'] = 'true'
     env['RUSTFLAGS'] = rustflags
@@ -84,6 +86,8 @@ def _parse_section(full, sec):
     m2 = re.search(r'VERIFICATION:- (SUCCESSFUL|FAILED)', sec)
     if re.search(r'CBMC timed out', sec):
         r['status'] = 'timeout'      # Kani prints VERIFICATION:- FAILED for a harness timeout too
+    elif re.search(r'CBMC appears to have run out of memory', sec):
+        r['status'] = 'oom'
     elif m2:
         r['status'] = 'success' if m2.group(1) == 'SUCCESSFUL' else 'failed'
     elif re.search(r'timed out|Timeout', sec):
